@@ -196,14 +196,12 @@ def signature(f):
 CORPUS_EXPECT = {
     # witnesses of the open findings: must fail as recorded
     "kindnames-instance-renamed": ("kindnames", "instance-redefined"),
-    "kindnames-destination-dropped": ("kindnames", "destination-dropped-by-update"),
     "usage-instance-renamed-to-consul": ("kindnames", "instance-redefined"),
     "topology-upstream-dropped": ("topology", "upstream-dropped"),
     "topology-instance-redefined": ("topology", "instance-redefined"),
     "topology-ingress-wildcard-cleanup": ("topology", "ingress-wildcard-cleanup"),
     "topology-native-upstreams": ("topology", "native-upstreams"),
     # peer stream (oracle-only): rows imported from a peer
-    "peer-imported-proxy-under-ingress-wildcard": ("gateway-services", "imported-instance"),
     "peer-vip-imported-proxy-outlives-assignment": ("vip-advertised", "imported-proxy-outlived-assignment"),
     # wide stream (oracle-only): parts of the universe the model's generator stays out of
     "wide-destination-with-instances": ("gateway-services", "destination-with-instances"),
@@ -215,6 +213,8 @@ CORPUS_EXPECT = {
     # failure of the repaired view on them has no excluded class and is therefore reported as a VIOLATION with
     # the corpus history as its replay
     "vip-proxy-outlives-assignment": None,
+    "kindnames-destination-dropped": None,                 # regression case of 0d0f3e6
+    "peer-imported-proxy-under-ingress-wildcard": None,    # regression case of 737750a
     "topology-pair-declared-twice": None,
     "kindnames-name-shared-across-kinds": None,
     "gateway-listed-service-overwritten-by-wildcard": None,
